@@ -286,6 +286,7 @@ STR_ITEMS = [
     ("@sh-format", '@sh "n \\(.) p\\(.)q \\([., .])"'),
     ("@json", "@json"),
     ("@json-format", '@json "x\\(.)y"'),
+    ("@json-nested", '@json "a\\(@json "b\\(.)c")d"'),      # a format string directly inside a format string
     ("@csv", "[.] | @csv"),
     ("@csv3", '[., "z", .] | @csv'),
     ("@tsv", "[.] | @tsv"),
@@ -415,6 +416,16 @@ def judge_string(ctx, s, R, sh_cases, tag):
             ok = False
         if not ok:
             out.append(("@json-format", "python-json-recovers-other", x.decode("latin-1")))
+    x = text_of("@json-nested")
+    if x is not None:
+        # the inner format string yields a string, which the outer format must escape like any other value
+        try:
+            inner = json_str(x[1:-1]) if x[:1] == b"a" and x[-1:] == b"d" else None
+            ok = inner is not None and inner[:1] == b"b" and inner[-1:] == b"c" and json_str(inner[1:-1]) == b
+        except ValueError:
+            ok = False
+        if not ok:
+            out.append(("@json-nested", "python-json-recovers-other", x.decode("latin-1")))
     # csv / tsv
     for name, exp in (("@csv", [b]), ("@csv3", [b, b"z", b])):
         x = text_of(name)
